@@ -52,7 +52,9 @@ def parameter_tuples():
     pairs += [(1.5, 60.0), (1.5, 600.0), (0.5, 0.5), (0.25, 64.0), (1.5, 2.0 ** 20),     # float bases: OverflowError path
               (2 ** 62, 2 ** 63), (3 * 2 ** 70, 5 * 2 ** 70), (1, 10 ** 7), (2 ** 40, 2 ** 40 * 1000)]
     for b, m in pairs:
-        for a in ATTEMPTS:
+        # float bases: attempt limits that cross the index (i = 1024) where 2 ** i no longer converts to float -
+        # the item produced by the OverflowError handler itself counts towards the limit
+        for a in ATTEMPTS + ([1024, 1025, 1026, 1100] if isinstance(b, float) else []):
             out.append(("exponential", (b, m, a)))
     return out
 
@@ -105,9 +107,11 @@ def run(ctx):
     items_total = 0
     for kind, params in tuples:
         modes = ["rng"] if kind == "constant" else (["low", "high"] + ["rng"] * n_rng)
+        if ctx.quick and params[-1] is not None and params[-1] > 150:
+            modes = ["rng"]                      # long limited schedules (overflow index): jitter is irrelevant there
         for mode in modes:
             # quick tier: the forced-extreme jitter runs stop after 150 items (the band is constant from the cap on)
-            limit = 150 if (ctx.quick and mode != "rng") else rr.LIMIT
+            limit = 150 if (ctx.quick and mode != "rng" and (params[-1] is None or params[-1] <= 150)) else rr.LIMIT
             t, items = rr.record(kind, params, jitter=mode, rng=ctx.rng, limit=limit)
             traces.append(t)
             meta.append({"kind": kind, "params": list(params), "jitter": mode, "items": len(items), "limit": limit,
@@ -199,7 +203,7 @@ def run(ctx):
         n = params[-1]
         if n is None:
             continue
-        out = rr.drive_handler(kind, params, jitter="rng", rng=ctx.rng, limit=200)
+        out = rr.drive_handler(kind, params, jitter="rng", rng=ctx.rng, limit=max(200, n + 50))
         handler_runs += 1
         bad = None
         if out["attempts"] != n or out["truncated"]:
@@ -224,7 +228,8 @@ def run(ctx):
 
 def replay(ctx, r):
     if r.get("handler"):
-        out = rr.drive_handler(r["kind"], tuple(r["params"]), jitter="rng", rng=ctx.rng, limit=200)
+        out = rr.drive_handler(r["kind"], tuple(r["params"]), jitter="rng", rng=ctx.rng,
+                               limit=max(200, (r["params"][-1] or 0) + 50))
         print("handler:", {k: v for k, v in out.items() if k != "delays"}, "delays[:5] =", out["delays"][:5])
         n = r["params"][-1]
         if out["attempts"] != n or out["truncated"]:
